@@ -297,11 +297,15 @@ fn p6(tier: Tier) -> BoxedStrategy<P6> {
         0u8..4,
     )
         .prop_map(move |(backend, entry, snapshot, (len, class, seed), mut sizes, enc, wsizes, reopen, later)| {
+            let wsizes: Vec<u32> = wsizes;
             let first = ((seed >> 3) % 4) as u8 % 3;
             // one-byte chunks only for small bodies (the handler is linear in chunks, the harness too)
             if len > 20_000 && sizes.iter().any(|s| *s < 64) {
                 sizes = sizes.iter().map(|s| if *s == 0 { 0 } else { *s * 997 + 64 }).collect();
             }
+            // likewise tiny socket writes (each one a packet with TCP_NODELAY): for large bodies
+            // they take minutes on a busy machine and tell nothing a few thousand of them do not
+            let wsizes: Vec<u32> = if len > 200_000 && wsizes.iter().any(|w| *w < 512) { wsizes.iter().map(|w| *w * 61 + 512).collect() } else { wsizes };
             // sockets: bound the size so a quick run stays quick
             let len = if entry == Entry::Sock { len.min(8 << 20) } else { len };
             P6 { backend, entry, snapshot, spec: BytesSpec { len, class, seed }, sizes, enc, wsizes, reopen, later, first }
